@@ -277,6 +277,22 @@ func BuildBase(name string, cfg Config, seed uint32) (*Base, error) {
 		bb.put("d")
 		bb.put("e")
 		return bb.finish([]string{"a", "b", "c", "d", "e", "n"}, nil)
+	case "S4":
+		// ROLL: a sealed segment of three live puts (not eligible for compaction) and a current segment
+		// holding an overwritten record (eligible, no delete records): a Delete slipped in between
+		// compaction's pick and its sealing of the current segment puts a delete record there.
+		bb.key("a", 0x11110000)
+		bb.key("b", 0x22220001)
+		bb.key("c", 0x11110000)
+		bb.key("d", 0x33330002)
+		bb.key("e", 0x44440003)
+		bb.key("n", 0x55550004)
+		bb.put("a")
+		bb.put("b")
+		bb.put("d")
+		bb.put("e")
+		bb.put("e")
+		return bb.finish([]string{"a", "b", "c", "d", "e", "n"}, nil)
 	case "T":
 		// the current segment ends 10 bytes before a 512-byte boundary: the next record is always torn-able
 		bb.key("a", 0x11110000)
